@@ -189,7 +189,7 @@ func init() {
 		ID:    "C08",
 		Level: "exploration",
 		Rule: "cases: seed patches (every patch in testdata/* and examples/*, the schema libraries of this harness) x mutations {truncation at a random byte, token insertion/replacement from a dictionary of patch-significant tokens, span deletion, line duplication/swap/drop, " +
-			"prefix flip, random bytes, double mutation}, grammar-generated well-formed but ill-typed patches (metavariables in wrong slots, elisions in non-list positions, mismatched sides), and random byte strings; every patch that is accepted is applied to 12 target files chosen for construct coverage " +
+			"prefix flip, random bytes, double mutation}, grammar-generated well-formed but ill-typed patches (metavariables in wrong slots, elisions in non-list positions, mismatched sides), random byte strings, and well-formed patches with 6-13 elisions in one list against lists of 30-80 similar elements (the elision search must not be exponential); every patch that is accepted is applied to 12 target files chosen for construct coverage " +
 			"(library API in a worker subprocess; every 8th also through the CLI). Monitor: BEGIN/END worker protocol with per-call panic recovery, CPU-time budget (20 s per case, confirmed by a solo re-run under RLIMIT_CPU=60), RSS limit 3 GiB, CLI exit status / stderr classifier. " +
 			"Violation = panic, fatal error, exit status other than 0/1, CPU or memory exhaustion. non-trivial = mutant differs from its seed and is non-empty; distinct = (seed, mutation kind, outcome class).",
 		Assumptions: []string{"inputs are small (patch <= 8 KiB, targets <= 10 KiB): 20 CPU-seconds for 40 patches x 12 targets is three orders of magnitude above the normal cost"},
@@ -262,8 +262,66 @@ func runC08(ctx *core.Ctx, idx int) *core.Result {
 			c08CLI(ctx, res, pt, kind, seedIdx)
 		}
 	}
+	if idx%10 == 9 {
+		c08Backtracking(ctx, res, r)
+	}
 	res.Sample(map[string]any{"seed_patch": core.Trunc(seed, 300), "mutations_per_case": c08PerCase})
 	return res
+}
+
+// c08Backtracking: well-formed patches with many elisions in one list against lists of many similar elements
+// (still a small input: < 1 KiB). The elision search may have to try every choice of runs; it must not take
+// time exponential in the number of elisions. Through the CLI, under RLIMIT_CPU.
+func c08Backtracking(ctx *core.Ctx, res *core.Result, r *rand.Rand) {
+	k := 6 + r.Intn(8)  // elisions
+	n := 30 + r.Intn(50) // elements
+	stmts := r.Intn(3) == 0
+	elemKind := r.Intn(4) // 0 literal element, 1 distinct single-use metavariables, 2 mixture, 3 one metavariable used twice among literals
+	var meta, pat, tgt []string
+	for i := 0; i < k; i++ {
+		e := "a"
+		switch {
+		case elemKind == 1 || (elemKind == 2 && i%2 == 0):
+			e = fmt.Sprintf("x%d", i)
+			meta = append(meta, fmt.Sprintf("var %s expression", e))
+		case elemKind == 3 && (i == 0 || i == k-1):
+			e = "rep"
+		}
+		if stmts {
+			e = "use(" + e + ")"
+		}
+		pat = append(pat, "...", e)
+	}
+	if elemKind == 3 {
+		meta = append(meta, "var rep expression")
+	}
+	for i := 0; i < n; i++ {
+		if stmts {
+			tgt = append(tgt, "\tuse(a)")
+		} else {
+			tgt = append(tgt, "a")
+		}
+	}
+	var pt, src string
+	if stmts {
+		// the terminating statement never occurs: every choice of runs fails
+		pt = "@@\n" + strings.Join(meta, "\n") + "\n@@\n " + strings.Join(pat, "\n ") + "\n ...\n-neverThere()\n+there()\n"
+		src = "package p\n\nfunc f() {\n" + strings.Join(tgt, "\n") + "\n}\n"
+	} else {
+		pt = "@@\n" + strings.Join(meta, "\n") + "\n@@\n-f(" + strings.Join(pat, ", ") + ", ..., neverThere)\n+g()\n"
+		src = "package p\n\nfunc f() {\n\tf(" + strings.Join(tgt, ", ") + ")\n}\n"
+	}
+	dir, _ := os.MkdirTemp(ctx.Tmp, "c08bt")
+	defer os.RemoveAll(dir)
+	os.WriteFile(filepath.Join(dir, "m.patch"), []byte(pt), 0o644)
+	os.WriteFile(filepath.Join(dir, "t.go"), []byte(src), 0o644)
+	cr := ctx.RunCLI(core.CLIOpts{Dir: dir, Args: []string{"-p", "m.patch", "t.go"}})
+	res.Evals++
+	res.Ob("many-elision-searches", 1)
+	res.Sig("backtracking", k, n/10, stmts, elemKind)
+	if cc := cr.CrashClass(); cc != "" {
+		res.Violate("C08/"+cc+"/elision-search", fmt.Sprintf("%d elisions against a list of %d similar elements (statements=%v, element kind %d): %s", k, n, stmts, elemKind, core.Trunc(string(cr.Stderr), 600)), map[string]string{"p.patch": pt, "in.go": src})
+	}
 }
 
 func c08CLI(ctx *core.Ctx, res *core.Result, pt, kind string, seedIdx int) {
